@@ -54,6 +54,11 @@ CORPUS = [
     ("def f(a: Qint[2], b: Qint[2]) -> bool:\n    return a != b\n", [["a", "Qint2"], ["b", "Qint2"]], "bool"),
     ("def f(a: bool, b: bool) -> Tuple[bool, bool]:\n    return (a ^ b, a)\n", [["a", "bool"], ["b", "bool"]], ["bool", "bool"]),
     ("def f(a: Tuple[Qint[2], bool]) -> bool:\n    return a[1] and a[0] == 2\n", [["a", ["Qint2", "bool"]]], "bool"),
+    # nested argument types with elements of different widths (decode_samples spells them in the arguments' types)
+    ("def f(t: Tuple[Tuple[bool, Qint[2]], bool]) -> bool:\n    return t[0][0] and t[1] and t[0][1] == 2\n", [["t", [["bool", "Qint2"], "bool"]]], "bool"),
+    ("def f(t: Tuple[Tuple[Qint[2], bool], Qint[2]], b: bool) -> Qint[2]:\n    return t[0][0] ^ t[1] if (b ^ t[0][1]) else t[1]\n", [["t", [["Qint2", "bool"], "Qint2"]], ["b", "bool"]], "Qint2"),
+    ("def f(t: Tuple[bool, Tuple[bool, Qint[3]]]) -> Tuple[bool, bool]:\n    return (t[0] ^ t[1][0], t[1][1] > 4)\n", [["t", ["bool", ["bool", "Qint3"]]]], ["bool", "bool"]),
+    ("def f(m: Qmatrix[bool, 2, 2], l: Qlist[Qint[2], 2]) -> bool:\n    return (m[0][1] ^ m[1][0]) and l[0] == l[1]\n", [["m", [["bool", "bool"], ["bool", "bool"]]], ["l", ["Qint2", "Qint2"]]], "bool"),
 ]
 
 
